@@ -82,6 +82,8 @@ def run(ctx):
     base.run_twin(ctx, "njobs_vs_one", scns)
     large = [TW.gen_c05_large(ctx.seed, i) for i in range(ctx.scale(6, 60))]
     base.run_twin(ctx, "njobs_vs_one", large, shrink=False)
+    readd = [TW.gen_c05_readd(ctx.seed, i) for i in range(ctx.scale(12, 120))]
+    base.run_twin(ctx, "njobs_vs_one", readd, shrink=False)
     more = [TW.gen_c05(ctx.seed, 10000 + i) for i in range(ctx.scale(200, 2000))]
     base.run_twin(ctx, "chunk_vs_rows", more)
     base.run_twin(ctx, "fit_task_orders", more)
